@@ -232,7 +232,8 @@ def run(pid, tier, seed, replay):
             origin.append(c)
     if os.path.exists(os.path.join(vlib.COQ, "Model/NumCoerce.vo")):
         pre = "From DF Require Import Base.Prelude Model.NumCoerce.\nOpen Scope Z_scope."
-        for (tt, oo, shard, tag) in ((big_terms, big_origin, 16, "c47cmp"), (terms, origin, 500, "c47")):
+        for (tt, oo, tag) in ((big_terms, big_origin, "c47cmp"), (terms, origin, "c47")):
+            shard = max(8, -(-len(tt) // 16))          # 16 coqc processes per group (start-up cost dominates small shards)
             bad, log, dt = vlib.coq_eval_cases(pre, "c47_case", "c47_check", tt, shard=shard, tag=tag)
             ck.log("correspondence (%s): %d model evaluations, %d disagreements (%.1fs)" % (tag, len(tt), len(bad), dt))
             if bad:
